@@ -83,7 +83,8 @@ Print Assumptions C05_tree_complete_b_sound.
    compared output-for-output and every returned linear path is judged by linear_path_valid. *)
 Theorem C05_processor_paths_valid_partial : forall n os a choose fuel, 1 <= n ->
   a_run (a_init n) os = Some a -> choose_ok choose -> length (a_present a) <= S fuel ->
-  exists a', a_remaining choose fuel a = Some a' /\ length (a_present a') = 1 /             ssa_path_valid n (a_path a') = true.
+  exists a', a_remaining choose fuel a = Some a' /\ length (a_present a') = 1 /\
+             ssa_path_valid n (a_path a') = true.
 Proof. exact processor_ssa_path_valid. Qed.
 Print Assumptions C05_processor_paths_valid_partial.
 
@@ -92,13 +93,15 @@ Print Assumptions C05_processor_paths_valid_partial.
    makes the while loop of build_agglom run for ever: no amount of fuel suffices *)
 Theorem C05_build_agglom_terminates_refuted :
   exists (memb_fn : list nset -> list nat) (n groupsize : nat),
-    (forall l, length (memb_fn l) = length l) /\ groupsize >= 2 /    forall fuel, build_agglom (sub_of_table []) memb_fn groupsize fuel n = None.
+    (forall l, length (memb_fn l) = length l) /\ groupsize >= 2 /\
+    forall fuel, build_agglom (sub_of_table []) memb_fn groupsize fuel n = None.
 Proof. exact build_agglom_terminates_refuted. Qed.
 Print Assumptions C05_build_agglom_terminates_refuted.
 
 (* non-vacuity *)
 Example C05_nonvacuous_processor :
-  exists a, a_run (a_init 4) [ASingle 1; AContract 0 4; AContract 2 3] = Some a /            a_present a = [5; 6] /\ a_path a = [[1]; [0; 4]; [2; 3]].
+  exists a, a_run (a_init 4) [ASingle 1; AContract 0 4; AContract 2 3] = Some a /\
+            (a_present a = [5; 6]) /\ (a_path a = [[1]; [0; 4]; [2; 3]]).
 Proof. eexists. vm_compute. repeat split. Qed.
 Example C05_repaired_agglom :
   exists t, build_agglom_fixed (sub_of_table []) id_membership 4 5 = Some t /\ Permutation (leaves t) (seq 0 5).
